@@ -8,6 +8,7 @@ from selftest.mutate import Mutant, run_mutant
 from contracts import util_scope
 
 U = "shroud/util.py"
+A = "shroud/ast.py"
 M = [
     Mutant("S1", "C14", U, "            elif not hasattr(self, key):", "            elif hasattr(self, key):", "refuted", "replace=False inverted"),
     Mutant("S2", "C14", U, "            elif not hasattr(self, key):", "            elif key not in self.__dict__:", "refuted",
@@ -33,6 +34,16 @@ M = [
     Mutant("S13", "C14", U, "        return hasattr(self, item)", "        return item in self.__dict__", "refuted", "__contains__ ignores the parent"),
     Mutant("S14", "C14", U, "        self.__parent = parent\n\n    def get_parent", "        self.__parent = parent\n        self.__hidden = 0\n\n    def get_parent", "refuted",
            "reparent touches another field"),
+    Mutant("T1", "C14", A, "        if not fmt.inlocal(name):\n            tname", "        if name not in fmt:\n            tname", "refuted",
+           "eval_template: an inherited value blocks the template"),
+    Mutant("T2", "C14", A, "util.wformat(self.options[tname], fmt))", "util.wformat(self.options[tname], self.fmtdict))", "refuted",
+           "eval_template formats with the node's scope instead of the given one"),
+    Mutant("T3", "C14", A, "        if not fmt.inlocal(name):\n            setattr(fmt, name, value)",
+           "        if not fmt.inlocal(name):\n            setattr(self.fmtdict, name, value)", "refuted", "set_fmt_default writes the node's scope instead of the given one"),
+    Mutant("T4", "C14", A, "        if not fmt.inlocal(name):\n            tname", "        if True:\n            tname", "refuted",
+           "eval_template overwrites an explicitly set field"),
+    Mutant("T5", "C14", A, "setattr(fmt, name, util.wformat(self.options[tname], fmt))", "setattr(fmt, name, util.wformat(self.options[name], fmt))", "refuted",
+           "eval_template reads another option"),
     Mutant("P1", "C14", U, "        for key in lst:\n            if key in self.__dict__:", "        for k2 in lst:\n            key = k2\n            if key in self.__dict__:", "ok",
            "renamed loop variable"),
     Mutant("P2", "C14", U, "        return self.__dict__.get(key, value)", "        return self.__dict__[key]", "ok", "setdefault result read directly"),
